@@ -37,7 +37,8 @@ def digest(d):
 def sessions(rng, big):
     """name -> (payload strings, pieces to write with a pause after each)."""
     out = {}
-    small = ["", "plain ascii", "café € \U0001F60B", "Content-Length: 3\r\n\r\n{}", "x" * 300]
+    small = ["", "plain ascii", "café € \U0001F60B", "Content-Length: 3\r\n\r\n{}", "x" * 300,
+             "e\u0301 \u1100\u1161\u11a8 \u212b \U0001D15E \ufb01"]          # not NFC-normalised: must arrive as sent
     data = b"".join(frame(note(i, d), i % 3) for i, d in enumerate(small))
     cuts = sorted(rng.sample(range(1, len(data)), 7))
     out["small-random-pieces"] = (small, [data[a:b] for a, b in zip([0] + cuts, cuts + [len(data)])])
